@@ -1,46 +1,60 @@
 (* C29 — executable entry points for the correspondence check, and the property as a
    boolean checker on observables (applied to the IMPLEMENTATION's observable).
    Definitions only. *)
-From Coq Require Import List NArith String Bool Arith.
+From Coq Require Import String.
+From Coq Require Import List NArith ZArith Bool Arith.
 Import ListNotations.
 From TV Require Import Lib.Obs C29.Model.
 Local Open Scope N_scope.
 
-(* what the fake connection saw: the four relevant headers (get_list) as handed to
-   write_headers, and the chunks handed to write_headers / write *)
+(* what the fake connection saw: the status code and the four relevant headers (get_list) as handed
+   to write_headers, and the chunks handed to write_headers / write *)
 Record resp := mkResp {
+  r_status : N;
   r_vary : list bytes; r_ce : list bytes; r_cl : list bytes; r_ct : list bytes;
   r_sent : list bytes
 }.
 
-Inductive outcome := NoHeaders | GzipError | Resp (r : resp).
+Inductive outcome := NoHeaders | GzipError | AssertFail | Resp (r : resp).
 
-Definition outcome_of {c} (s : st c) : outcome :=
-  if err s then GzipError else
-  match w_hdrs s with
-  | None => NoHeaders
-  | Some h => Resp (mkResp (hlist K_VARY h) (hlist K_CE h) (hlist K_CL h) (hlist K_CT h) (sent s))
+Definition outcome_of {c} (o : option (hs c)) : outcome :=
+  match o with
+  | None => AssertFail
+  | Some hs =>
+      let s := core hs in
+      if err s then GzipError else
+      match w_hdrs s with
+      | None => NoHeaders
+      | Some h => Resp (mkResp (wcode hs) (hlist K_VARY h) (hlist K_CE h) (hlist K_CL h) (hlist K_CT h) (sent s))
+      end
   end.
 
 Definition obs_of (o : outcome) : obs :=
   match o with
   | NoHeaders => OTag "NoHeaders"
   | GzipError => OTag "GzipError"
-  | Resp r => OList [OList (map OBytes (r_vary r)); OList (map OBytes (r_ce r)); OList (map OBytes (r_cl r));
+  | AssertFail => OTag "AssertionError"
+  | Resp r => OList [OInt (Z.of_N (r_status r));
+                     OList (map OBytes (r_vary r)); OList (map OBytes (r_ce r)); OList (map OBytes (r_cl r));
                      OList (map OBytes (r_ct r)); OList (map OBytes (r_sent r))]
   end.
 
-(* input: (toy codec? (false = real gzip, canonicalised to the transparent codec),
-           HEAD request?, Accept-Encoding request header, handler program, finish(chunk) argument) *)
-Definition input := (bool * bool * option bytes * list op * option bytes)%type.
+(* input: (toy codec? (false = real gzip, canonicalised to the transparent codec), HEAD request?,
+           compress_response setting, Accept-Encoding request header values in order,
+           handler program, finish(chunk) argument) *)
+Definition input := (bool * bool * bool * list bytes * list op * option bytes)%type.
+
+(* request.headers.get("Accept-Encoding"): absent, or the values joined by "," *)
+Definition ae_of (vals : list bytes) : option bytes :=
+  match vals with [] => None | _ => Some (join_comma vals) end.
 
 (* compact chunk literal used by the harness: n bytes a, a+s, a+2s, ... (mod 256) *)
 Fixpoint pat (n : nat) (a s : N) : bytes :=
   match n with O => [] | S k => a :: pat k ((a + s) mod 256) s end.
 
 Definition run_outcome (i : input) : outcome :=
-  let '(toy_mode, head, ae, prog, fin) := i in
-  let e := {| is_head := head; accept_enc := ae |} in
+  let '(toy_mode, head, comp, aes, prog, fin) := i in
+  let e := {| is_head := head; accept_enc := ae_of aes; compress := comp |} in
   if toy_mode then outcome_of (run toy e prog fin) else outcome_of (run sym e prog fin).
 Definition run_case (i : input) : obs := obs_of (run_outcome i).
 
@@ -53,9 +67,9 @@ Fixpoint bytes_list (l : list obs) : option (list bytes) :=
   end.
 Definition resp_of_obs (o : obs) : option resp :=
   match o with
-  | OList [OList a; OList b'; OList c; OList d; OList s] =>
+  | OList [OInt z; OList a; OList b'; OList c; OList d; OList s] =>
       match bytes_list a, bytes_list b', bytes_list c, bytes_list d, bytes_list s with
-      | Some a, Some b', Some c, Some d, Some s => Some (mkResp a b' c d s)
+      | Some a, Some b', Some c, Some d, Some s => Some (mkResp (Z.to_N z) a b' c d s)
       | _, _, _, _, _ => None
       end
   | _ => None
@@ -83,50 +97,88 @@ Fixpoint has_flush (p : list op) : bool :=
 Definition chunk_of (o : op) : bytes := match o with Write d => d | _ => [] end.
 Definition writes (p : list op) : bytes := flat_map chunk_of p.
 Definition fin_bytes (fin : option bytes) : bytes := match fin with Some d => d | None => [] end.
-(* the handler's own headers when the first flush happens *)
+(* the handler's own headers / status when the header block is produced (first flush, else finish) *)
 Definition handler_hdrs (p : list op) : hdrs := fold_left (fun h o => hdr_op o h) (before_flush p) init_hd.
+Definition status_op (code : N) (o : op) : N := match o with Status n => n | _ => code end.
+Definition status_at (p : list op) : N := fold_left status_op (before_flush p) 200.
+(* write() was called at all before the header block (finish's assertion looks at the list, not its bytes) *)
+Definition is_write (o : op) : bool := match o with Write _ => true | _ => false end.
+Definition wrote (p : list op) (fin : option bytes) : bool :=
+  existsb is_write p || match fin with Some _ => true | None => false end.
+(* finish() without a previous flush and with a bodiless status asserts that nothing was written *)
+Definition assertion_fails (p : list op) (fin : option bytes) : bool :=
+  negb (has_flush p) && bodiless (status_at p) && wrote p fin.
+(* ... and then drops the representation headers *)
+Definition eff_hdrs (p : list op) : hdrs :=
+  if has_flush p then handler_hdrs p
+  else if bodiless (status_at p) then clear_repr (handler_hdrs p) else handler_hdrs p.
 (* the chunk presented to transform_first_chunk *)
 Definition first_chunk (p : list op) (fin : option bytes) : bytes :=
   if has_flush p then writes (before_flush p) else writes p ++ fin_bytes fin.
+(* the header block without any transform: finish() adds Content-Length when nothing was flushed,
+   the status may have a body and the handler set none *)
+Definition final_hdrs (p : list op) (fin : option bytes) : hdrs :=
+  let h := eff_hdrs p in
+  if has_flush p || bodiless (status_at p) then h
+  else if hmem K_CL h then h
+  else hset K_CL (dec_len (first_chunk p fin)) h.
 
 Definition list_beqb (x y : list bytes) : bool := list_eqb beqb x y.
+Definition is_nil (x : bytes) : bool := match x with [] => true | _ => false end.
 
 Definition mentions_gzip (ae : option bytes) : bool :=
   has_sub V_GZIP (match ae with Some v => v | None => [] end).
 
-Definition check_resp (gunzip : bytes -> option bytes) (head : bool) (ae : option bytes)
+(* the decision, from the request, the handler's headers and the program only *)
+Definition expected_gzip (ae : option bytes) (prog : list op) (fin : option bytes) (ctype : list bytes) : bool :=
+  mentions_gzip ae
+  && compressible (before_semi (join_comma ctype))
+  && (has_flush prog || (MIN_LENGTH <=? List.length (first_chunk prog fin))%nat)
+  && negb (hmem K_CE (eff_hdrs prog))
+  && status_ok (status_at prog).
+
+Definition check_resp (gunzip : bytes -> option bytes) (head comp : bool) (ae : option bytes)
            (prog : list op) (fin : option bytes) (r : resp) : bool :=
   let all := writes prog ++ fin_bytes fin in
   let body := List.concat (r_sent r) in
-  let hh := handler_hdrs prog in
+  let hh := eff_hdrs prog in
   let handler_ce := hmem K_CE hh in
   let handler_cl := hmem K_CL hh in
   let gz := negb handler_ce && list_beqb (r_ce r) [V_GZIP] in
-  (* Vary always includes Accept-Encoding *)
-  vary_mentions_ae (r_vary r)
-  (* a client decoding by Content-Encoding gets exactly the bytes written (nothing for HEAD);
-     a Content-Encoding set by the handler itself is left alone, and so is the body *)
-  && (if head then beqb body []
-      else if handler_ce then beqb body all && list_beqb (r_ce r) (hlist K_CE hh)
-      else match r_ce r with
-           | [] => beqb body all
-           | [v] => beqb v V_GZIP && match gunzip body with Some d => beqb d all | None => false end
-           | _ => false
-           end)
-  (* compressed exactly when: Accept-Encoding mentions gzip, compressible type, not a short
-     single-chunk response, no Content-Encoding of the handler's own *)
-  && Bool.eqb gz
-       (mentions_gzip ae && compressible (before_semi (join_comma (r_ct r)))
-        && (has_flush prog || (MIN_LENGTH <=? List.length (first_chunk prog fin))%nat) && negb handler_ce)
-  (* Content-Length, when present, is the encoded body length (unless the handler set its own
-     and the transform did not compress) *)
-  && (if gz || negb handler_cl then
-        match r_cl r with
-        | [] => true
-        | [v] => head || beqb v (dec_len body)
-        | _ => false
-        end
-      else true).
+  (* the status code is the handler's *)
+  (r_status r =? status_at prog)
+  (* a response that cannot have a body and for which nothing was written has no body byte *)
+  && (if bodiless (r_status r) && is_nil all then beqb body [] else true)
+  && (if comp then
+        (* Vary always includes Accept-Encoding *)
+        vary_mentions_ae (r_vary r)
+        (* a client decoding by Content-Encoding gets exactly the bytes written (nothing for HEAD);
+           a Content-Encoding set by the handler itself is left alone, and so is the body *)
+        && (if head then beqb body []
+            else if handler_ce then beqb body all && list_beqb (r_ce r) (hlist K_CE hh)
+            else match r_ce r with
+                 | [] => beqb body all
+                 | [v] => beqb v V_GZIP && match gunzip body with Some d => beqb d all | None => false end
+                 | _ => false
+                 end)
+        (* compressed exactly when: Accept-Encoding mentions gzip, compressible type, not a short
+           single-chunk response, no Content-Encoding of the handler's own *)
+        && Bool.eqb gz (expected_gzip ae prog fin (r_ct r))
+        (* Content-Length, when present, is the encoded body length (unless the handler set its own
+           and the transform did not compress) *)
+        && (if gz || negb handler_cl then
+              match r_cl r with
+              | [] => true
+              | [v] => head || beqb v (dec_len body)
+              | _ => false
+              end
+            else true)
+      else
+        (* no transform configured: header block and body are the handler's *)
+        let fh := final_hdrs prog fin in
+        list_beqb (r_vary r) (hlist K_VARY fh) && list_beqb (r_ce r) (hlist K_CE fh)
+        && list_beqb (r_cl r) (hlist K_CL fh) && list_beqb (r_ct r) (hlist K_CT fh)
+        && (if head then beqb body [] else beqb body all)).
 
 (* a client that decodes the body according to the response's Content-Encoding
    (None: an encoding it cannot decode, or a corrupt stream) *)
@@ -136,12 +188,17 @@ Definition client_decode (gunzip : bytes -> option bytes) (r : resp) : option by
   | [v] => if beqb v V_GZIP then gunzip (List.concat (r_sent r)) else None
   | _ => None
   end.
-Definition GET (ae : option bytes) : env := {| is_head := false; accept_enc := ae |}.
-Definition HEAD (ae : option bytes) : env := {| is_head := true; accept_enc := ae |}.
+Definition GET (ae : option bytes) : env := {| is_head := false; accept_enc := ae; compress := true |}.
+Definition HEAD (ae : option bytes) : env := {| is_head := true; accept_enc := ae; compress := true |}.
 
 Definition check_case (i : input) (o : obs) : bool :=
-  let '(toy_mode, head, ae, prog, fin) := i in
-  match resp_of_obs o with
-  | Some r => check_resp (if toy_mode then toy_gunzip else sym_gunzip) head ae prog fin r
-  | None => false
+  let '(toy_mode, head, comp, aes, prog, fin) := i in
+  match o with
+  | OTag t => String.eqb t "AssertionError" && assertion_fails prog fin
+  | _ =>
+    match resp_of_obs o with
+    | Some r => negb (assertion_fails prog fin)
+                && check_resp (if toy_mode then toy_gunzip else sym_gunzip) head comp (ae_of aes) prog fin r
+    | None => false
+    end
   end.
